@@ -1,4 +1,5 @@
 import TaskctlVerif.Model.Decode
+import TaskctlVerif.Model.Normalise
 /-!
 # C16 — YAML, JSON and TOML express the same configuration identically  (**partial**, weakest tie)
 
@@ -90,3 +91,105 @@ example : decodeEntry .toml exEntry =
   decide
 
 end Decode
+
+/-! ## Documents of different formats are brought to one form before a merge (`Model/Normalise.lean`) -/
+namespace Normalise
+
+theorem normKind_uniform (k : Kind) : (normKind k == .mapS || normKind k == .listI) = true := by
+  cases k <;> rfl
+
+mutual
+theorem uniform_norm : ∀ v : V, uniform (norm v) = true
+  | .leaf => rfl
+  | .node k cs => by
+    simp only [norm, uniform, normKind_uniform, Bool.true_and]
+    exact uniformList_normList cs
+theorem uniformList_normList : ∀ vs : List V, uniformList (normList vs) = true
+  | [] => rfl
+  | c :: cs => by
+    simp only [normList, uniformList, uniform_norm c, Bool.true_and]
+    exact uniformList_normList cs
+end
+
+theorem isMapKind_normKind (k : Kind) : isMapKind (normKind k) = isMapKind k := by
+  cases k <;> rfl
+
+mutual
+/-- normalising changes kinds only: the content (which nodes are mappings, which are lists, in which
+order) is what it was -/
+theorem shape_norm : ∀ v : V, shape (norm v) = shape v
+  | .leaf => rfl
+  | .node k cs => by
+    simp only [norm, shape, isMapKind_normKind]
+    rw [shapeList_normList cs]
+theorem shapeList_normList : ∀ vs : List V, shapeList (normList vs) = shapeList vs
+  | [] => rfl
+  | c :: cs => by
+    simp only [normList, shapeList, shape_norm c]
+    rw [shapeList_normList cs]
+end
+
+mutual
+theorem norm_of_uniform : ∀ v : V, uniform v = true → norm v = v
+  | .leaf, _ => rfl
+  | .node k cs, h => by
+    simp only [uniform, Bool.and_eq_true, Bool.or_eq_true, beq_iff_eq] at h
+    simp only [norm]
+    rw [normList_of_uniformList cs h.2]
+    rcases h.1 with rfl | rfl <;> rfl
+theorem normList_of_uniformList : ∀ vs : List V, uniformList vs = true → normList vs = vs
+  | [], _ => rfl
+  | c :: cs, h => by
+    simp only [uniformList, Bool.and_eq_true] at h
+    simp only [normList]
+    rw [norm_of_uniform c h.1, normList_of_uniformList cs h.2]
+end
+
+/-- normalising twice is normalising once (a document that went through one merge is left alone by
+the next) -/
+theorem norm_idem (v : V) : norm (norm v) = norm v := norm_of_uniform _ (uniform_norm v)
+
+theorem any_isMapS_pureI : ∀ vs : List V, pureIList vs = true → vs.any isMapS = false
+  | [], _ => rfl
+  | c :: cs, h => by
+    simp only [pureIList, Bool.and_eq_true] at h
+    simp only [List.any_cons, any_isMapS_pureI cs h.2, Bool.or_false]
+    cases c with
+    | leaf => rfl
+    | node k ds =>
+      simp only [pureI, Bool.and_eq_true, Bool.or_eq_true, beq_iff_eq] at h
+      rcases h.1.1 with rfl | rfl <;> rfl
+
+/-- **what `unifyMapKinds` establishes before every merge**: either it normalises, and then both
+documents are uniform (string-keyed mappings and plain lists only - the kinds `mergo` can merge and
+append), with their content unchanged; or it leaves both alone, and then neither has a string-keyed
+mapping among its top-level values.  In particular two YAML documents stay as they are, and as soon
+as one of the two came from JSON or TOML (or from an earlier mixed merge) and has a section, both end
+up in the common form. -/
+theorem C16_unify (a b : List V) :
+    ((a.any isMapS || b.any isMapS) = true →
+      uniformList (unify a b).1 = true ∧ uniformList (unify a b).2 = true ∧
+      shapeList (unify a b).1 = shapeList a ∧ shapeList (unify a b).2 = shapeList b) ∧
+    ((a.any isMapS || b.any isMapS) = false → unify a b = (a, b)) := by
+  constructor
+  · intro h
+    simp only [unify, h, if_true]
+    exact ⟨uniformList_normList a, uniformList_normList b, shapeList_normList a, shapeList_normList b⟩
+  · intro h
+    simp only [unify, h]
+    rfl
+
+/-- two YAML documents are left as yaml.v2 made them -/
+theorem C16_unify_yaml_yaml (a b : List V) (ha : pureIList a = true) (hb : pureIList b = true) :
+    unify a b = (a, b) := by
+  apply (C16_unify a b).2
+  rw [any_isMapS_pureI a ha, any_isMapS_pureI b hb]
+  rfl
+
+-- a TOML document with an array of tables next to a YAML document defining the same section
+example : unify [.node .mapS [.node .listM [.node .mapS [.leaf]]]] [.node .mapI [.node .listI [.node .mapI [.leaf]]]] =
+    ([.node .mapS [.node .listI [.node .mapS [.leaf]]]], [.node .mapS [.node .listI [.node .mapS [.leaf]]]]) := by
+  simp [unify, isMapS, norm, normList, normKind]
+
+end Normalise
+
